@@ -229,4 +229,45 @@ theorem store_schema_branch_emit (reg : Reg) (t : Tree) (pos : Path) (e : Val) (
   simp [KV.erase, hget, hsp, hset, hinner, KV.has, KV.lookup, poppedKeys, hasSchemaKey, Generated.schemaKeys,
     applyConfig.kids, hset2, hget2, htopo]
 
+/-- **A branch-level flag and a more specific flag below it in one dictionary**
+(`store_schema = {branch: {'_emit': e, k: {'_emit': e'}}}`): the branch flag is applied first — to the
+whole branch as it is — and the entry for the child `k` afterwards, on that result; so the more
+specific flag is the one `k` ends up with, whatever the branch says. -/
+theorem branch_flag_then_specific (reg : Reg) (t : Tree) (pos : Path) (e : Val) (k : String) (child : Val)
+    (n : NodeRec)
+    (hget : t.get pos = some n) (hinner : t.hasInner pos = true) (htopo : n.topology.truthy = false)
+    (hleaf : n.leaf = false)
+    (hk : ("_emit" :: poppedKeys).contains k = false) (hks : Generated.schemaKeys.contains k = false)
+    (hchild : (setEmitBelow t pos e).has (pos ++ [k]) = true)
+    (t' : Tree)
+    (h' : applyConfig reg (setEmitBelow t pos e) (pos ++ [k]) child = .ok t')
+    (hget' : t'.get pos = some n) :
+    applyConfig reg t pos (.dict [("_emit", e), (k, child)]) = .ok t' := by
+  have hne : k ≠ "_emit" ∧ k ≠ "_output" ∧ k ≠ "*" ∧ k ≠ "_subschema" ∧ k ≠ "_subtopology" ∧
+      k ≠ "_topology" ∧ k ≠ "_flow" ∧ k ≠ "_divider" := by
+    simp [poppedKeys] at hk; exact hk
+  obtain ⟨h0, h1, h2, h3, h4, h5, h6, h7⟩ := hne
+  have hsp : applySpecial reg n [("_emit", e), (k, child)] = .ok n := by
+    simp [applySpecial, KV.lookup, bind, Except.bind, pure, Except.pure, h2, h3, h4, h5, h7]
+  have hset : t.set pos n = t := set_get_self hget
+  have hget2 : (setEmitBelow t pos e).get pos = some n := by rw [get_setEmitBelow_self, hget]
+  have hset2 : (setEmitBelow t pos e).set pos n = setEmitBelow t pos e := set_get_self hget2
+  have hens : (setEmitBelow t pos e).ensure (pos ++ [k]) = setEmitBelow t pos e := by
+    simp [Tree.ensure, hchild]
+  have hks' : k ∉ Generated.schemaKeys := by simpa using hks
+  unfold applyConfig
+  simp [KV.erase, hget, hsp, hset, hinner, KV.has, KV.lookup, poppedKeys, hasSchemaKey,
+    applyConfig.kids, hset2, htopo, h0, h1, h2, h3, h4, h5, h6, h7, hens, h', hget', hks', hleaf]
+
+private def regE : Reg := { updaters := ["accumulate", "set"], dividers := ["set"], serializers := [], quantityKey := "q" }
+private def treeE : Tree :=
+  [([], {}), (["vars"], {}), (["vars", "x"], { leaf := true, value := .int 1, emit := .bool true }),
+   (["vars", "y"], { leaf := true, value := .int 2, emit := .bool false })]
+
+/-- non-vacuity: `{'_emit': True, 'x': {'_emit': False}}` on the branch `vars`: `y` is switched on by the
+branch flag, `x` ends with its own, more specific flag -/
+example : ((applyConfig regE treeE ["vars"] (.dict [("_emit", .bool true), ("x", .dict [("_emit", .bool false)])])).toOption.map
+    fun t => ((t.get ["vars", "x"]).map (·.emit), (t.get ["vars", "y"]).map (·.emit))) =
+    some (some (.bool false), some (.bool true)) := by
+  rfl
 end VivProps.C12
